@@ -3,7 +3,6 @@ package backend
 import (
 	"fmt"
 	"sync/atomic"
-	"time"
 )
 
 // 更新 `NodeInfo` 结构
@@ -61,6 +60,6 @@ func (n *NodeInfo) GetPooledConnectWithHealthCheck(name string, healthCheckSql s
 // 检查是否超过下线阈值
 // bool 表示是否需要将节点设为 StatusDown, int64 表示自 LastChecked 以来经过的时间，以便在外部直接用于日志记录
 func (n *NodeInfo) ShouldDownAfterNoAlive(downAfterNoAlive int) (bool, int64) {
-	elapsed := time.Now().Unix() - n.ConnPool.GetLastChecked()
+	elapsed := timeNow().Unix() - n.ConnPool.GetLastChecked()
 	return elapsed >= int64(downAfterNoAlive), elapsed
 }
